@@ -705,7 +705,17 @@ static void run_seq(void)
     const uint64_t used = ndraws;
     const bool ran = runaway;
     env_reset();
-    const double r = ref_call(s);
+    double r = ref_call(s);
+    /* the normal sampler takes its sign from bit 63 of the first raw word and nothing else from it:
+     * flipping that bit must negate the sample exactly, whatever branch of the ziggurat is taken */
+    double mirror = NAN;
+    /* (on the hot path the word is used as a two's complement integer instead: no such pairing there) */
+    if ((s->id == 0 || s->id == 1) && (script[0] & 0xff) > vx_nor_zig_max) {
+        script[0] ^= 1ull << 63;
+        env_reset();
+        mirror = lib_call(s);
+        script[0] ^= 1ull << 63;
+    }
     cmi_verif_sfc64_override = NULL;
     vx_transitions(used);
     vx_state(vx_hash_bytes((uint64_t)(s - SEQS), script, sizeof(uint64_t) * (size_t)K));
@@ -726,6 +736,15 @@ static void run_seq(void)
         snprintf(rule, sizeof rule, "seq:%s:outside-support:%s", s->name, isnan(x) ? "nan" : isinf(x) ? "infinite" : "out-of-range");
         FAIL(rule, "raw words %#" PRIx64 " %#" PRIx64 " ... give %.17g, outside the support", script[0], K > 1 ? script[1] : 0, x);
         return;
+    }
+    if (!isnan(mirror)) {
+        const double centre = s->id == 1 ? s->a : 0.0;
+        if (!(fabs((x - centre) + (mirror - centre)) <= 1e-12 * (fabs(x) + fabs(mirror) + 1.0))) {
+            snprintf(rule, sizeof rule, "seq:%s:not-symmetric-under-sign-bit", s->name);
+            FAIL(rule, "raw words %#" PRIx64 " %#" PRIx64 " ...: sample %.17g, with the sign bit of the first word flipped %.17g "
+                 "(must be the mirror image)", script[0], K > 1 ? script[1] : 0, x, mirror);
+            return;
+        }
     }
     if (!isnan(r) && !runaway) {
         const bool same = (x == r) || fabs(x - r) <= 1e-12 * (fabs(x) + fabs(r));
